@@ -29,9 +29,34 @@ def paramOf (P : Params) (name : String) : Option Nat :=
   | "opCallCode" => some P.opCallCode
   | "opDelegateCall" => some P.opDelegateCall
   | "opStaticCall" => some P.opStaticCall
+  | "logBalance" => some P.logBalance
+  | "logCode" => some P.logCode
+  | "logEvent" => some P.logEvent
   | _ => none
 
-def callee? (s : String) (paddr preq : Nat) (pok : Bool) (pw : Nat) : Option Callee :=
+/-- "-" or a comma separated list of ChangeLogType numbers -/
+def tags? (s : String) : Option (List Nat) :=
+  if s == "-" then some [] else (s.splitOn ",").mapM (·.toNat?)
+
+def entryType (P : Params) : Entry → Nat
+  | .write t => t
+  | .transfer _ => P.logBalance
+  | .code => P.logCode
+  | .event _ => P.logEvent
+
+/-- run-length encoding, same format as the harness (`1x2,2,15`; `-` for the empty list) -/
+def rle : List Nat → List (Nat × Nat)
+  | [] => []
+  | x :: xs => match rle xs with
+    | (y, n) :: r => if x = y then (y, n + 1) :: r else (x, 1) :: (y, n) :: r
+    | [] => [(x, 1)]
+
+def showRle (l : List Nat) : String :=
+  match rle l with
+  | [] => "-"
+  | r => ",".intercalate (r.map (fun (x, n) => if n > 1 then s!"{x}x{n}" else s!"{x}"))
+
+def callee? (s : String) (paddr preq : Nat) (pok : Bool) (pw : List Nat) : Option Callee :=
   match s with
   | "none" => some .none
   | "empty" => some .empty
@@ -68,36 +93,45 @@ def step (s : St) (w : List String) : St × String :=
     match paramOf T.params name, v.toNat? with
     | some a, some b => (s, if a == b then "ok" else "table-mismatch")
     | _, _ => (s, "table-mismatch")
-  | ["op", op, valid, mn, mx, wr, ha, re, ju, rt, hm, mg] =>
-    match op.toNat?, b? valid, parseInt? mn, parseInt? mx, b? wr, b? ha, b? re, b? ju, b? rt, b? hm, mg.toNat? with
-    | some op, some valid, some mn, some mx, some wr, some ha, some re, some ju, some rt, some hm, some mg =>
-      let live : OpInfo := if valid then ⟨true, mn.toNat, mx.toNat, wr, ha, re, ju, rt, hm, mg⟩ else OpInfo.invalid
+  | ["op", op, valid, mn, mx, wr, ha, re, ju, rt, hm, mg, cg] =>
+    match op.toNat?, b? valid, parseInt? mn, parseInt? mx, b? wr, b? ha, b? re, b? ju, b? rt, b? hm, mg.toNat?, b? cg with
+    | some op, some valid, some mn, some mx, some wr, some ha, some re, some ju, some rt, some hm, some mg, some cg =>
+      let live : OpInfo := if valid then ⟨true, mn.toNat, mx.toNat, wr, ha, re, ju, rt, hm, mg, cg⟩ else OpInfo.invalid
       (s, if op < 256 ∧ T.rows.length = 256 ∧ T.info op = live ∧ (valid = false ∨ (0 ≤ mn ∧ 0 ≤ mx)) then "ok" else "table-mismatch")
-    | _, _, _, _, _, _, _, _, _, _, _ => (s, "bad-op")
-  | ["pre", addr, wr] =>
-    match addr.toNat?, b? wr with
-    | some a, some wr =>
-      (s, if a ∈ EvmTable.precompiles ∧ (wr = decide (a ∈ T.params.writingPre)) then "ok" else "table-mismatch")
-    | _, _ => (s, "bad-op")
+    | _, _, _, _, _, _, _, _, _, _, _, _ => (s, "bad-op")
+  | ["pre", addr, wr, guarded] =>
+    -- live row: address, declared state-modifying, probed "refused under readOnly"
+    match addr.toNat?, b? wr, b? guarded with
+    | some a, some wr, some gd =>
+      (s, if a ∈ EvmTable.precompiles ∧ (wr = decide (a ∈ T.params.writingPre)) ∧ (wr = false ∨ gd = T.params.guardPre)
+          then "ok" else "table-mismatch")
+    | _, _, _ => (s, "bad-op")
   | ["precount", n] =>
-    (s, if n.toNat? = some EvmTable.precompiles.length ∧ T.params.guardPre = true then "ok" else "table-mismatch")
+    (s, if n.toNat? = some EvmTable.precompiles.length then "ok" else "table-mismatch")
+  | ["begin-asset", gas, early, amountZero, callee, paddr, preq, pok, wt] =>
+    match gas.toNat?, b? early, b? amountZero, paddr.toNat?, preq.toNat?, b? pok, tags? wt with
+    | some gas, some early, some az, some paddr, some preq, some pok, some wt =>
+      match callee? callee paddr preq pok [] with
+      | some cal => ({ m := beginAsset T gas early az wt cal }, "ok")
+      | none => (s, "bad-op")
+    | _, _, _, _, _, _, _ => (s, "bad-op")
   | ["begin", entry, gas, value, canT, callee, paddr, preq, pok, pw] =>
-    match kind? entry, gas.toNat?, b? value, b? canT, paddr.toNat?, preq.toNat?, b? pok, pw.toNat? with
+    match kind? entry, gas.toNat?, b? value, b? canT, paddr.toNat?, preq.toNat?, b? pok, tags? pw with
     | some k, some gas, some value, some canT, some paddr, some preq, some pok, some pw =>
       match callee? callee paddr preq pok pw with
       | some cal => ({ m := begin T k gas value canT cal }, "ok")
       | none => (s, "bad-op")
     | _, _, _, _, _, _, _, _ => (s, "bad-op")
   | ["s", op, sl, cost, memOv, gasErr, execErr, wr, retLen, value, req, canT, callee, paddr, preq, pok, pw] =>
-    match op.toNat?, sl.toNat?, cost.toNat?, b? memOv, b? gasErr, b? execErr, wr.toNat?, retLen.toNat? with
+    match op.toNat?, sl.toNat?, cost.toNat?, b? memOv, b? gasErr, b? execErr, tags? wr, retLen.toNat? with
     | some op, some sl, some cost, some memOv, some gasErr, some execErr, some wr, some retLen =>
-      match b? value, req.toNat?, b? canT, paddr.toNat?, preq.toNat?, b? pok, pw.toNat? with
+      match b? value, req.toNat?, b? canT, paddr.toNat?, preq.toNat?, b? pok, tags? pw with
       | some value, some req, some canT, some paddr, some preq, some pok, some pw =>
         match callee? callee paddr preq pok pw, s.m.frames with
         | some cal, f :: _ =>
           let info := T.info op
           let c0 : Choice := { op := op, stackLen := sl, memOverflow := memOv, gasErr := gasErr, execErr := execErr,
-                               writes := wr, retLen := retLen, value := value, reqGas := req, canTransfer := canT, callee := cal }
+                               wtags := wr, retLen := retLen, value := value, reqGas := req, canTransfer := canT, callee := cal }
           let fixed := info.minGas + (match T.kindOf op with
             | some k => if k ≠ .create ∧ withValue k c0 then T.params.callValueTransferGas else 0
             | none => 0)
@@ -109,6 +143,7 @@ def step (s : St) (w : List String) : St × String :=
             | .error .oog => !gasErr
             | .error _ => false
           if reachedGas ∧ cost < fixed then (s, head ++ "cost-below-min")
+          else if reachedGas ∧ info.constGas ∧ cost ≠ fixed then (s, head ++ "cost-not-constant")
           else
             let v : String := match p with
               | .error e => verdictName e
@@ -123,7 +158,8 @@ def step (s : St) (w : List String) : St × String :=
     | _, _, _, _, _, _, _, _ => (s, "bad-op")
   | ["end"] =>
     match s.m.result, s.m.frames with
-    | some (r, g), [] => ({ m := Machine.init }, s!"{resName r} {g} {s.m.journal.length}")
+    | some (r, g), [] =>
+      ({ m := Machine.init }, s!"{resName r} {g} {s.m.journal.length} {showRle (s.m.journal.map (entryType T.params))}")
     | _, _ => ({ m := Machine.init }, s!"not-finished depth={s.m.frames.length}")
   | _ => (s, "bad-op")
 
